@@ -11,7 +11,7 @@ from ..cfg import cfg_of
 from ..model import AnalysisError, FunctionInfo, bind_args
 from ..roles import roles_of
 from ..symb import Translator, Untranslatable, is_zero
-from ..terms import guard_extra, call_name, canon, cmp_normal, const_num, guard_canon, norm_stmt, state_key
+from ..terms import guard_extra, guard_of, call_name, canon, cmp_normal, const_num, guard_canon, norm_stmt, state_key
 from .common import deref_canon as _deref_c, iter_stores, reaching_assignments, self_attr_of, pos
 
 EXPLANATION = (
@@ -256,6 +256,19 @@ def check(ctx):
                     if isinstance(t, ast.Name) and t.id == yname and call_name(v) in ("np.vstack", "np.append", "np.concatenate") and pos(s) > pos(floop):
                         g = guard_canon(prog, opt, s)
                         okg = f"(1 == {yname}.size)" in g
+                        if not okg:
+                            # the vector was allocated with n entries (np.empty(n)) and the guard tests that n
+                            from .common import deref_canon as _dc5
+
+                            allocs = [v_ for t_, v_, s_, k_ in iter_stores(opt.node) if isinstance(t_, ast.Name) and t_.id in yal and isinstance(v_, ast.Call)
+                                      and call_name(v_) in ("np.empty", "np.zeros", "np.full") and v_.args]
+                            sizes = {_dc5(prog, opt, a_.args[0]) for a_ in allocs}
+                            for test_, pol_ in guard_of(prog, opt, s):
+                                if pol_ and isinstance(test_, ast.Compare) and len(test_.ops) == 1 and isinstance(test_.ops[0], ast.Eq):
+                                    l_, r_ = test_.left, test_.comparators[0]
+                                    other = r_ if const_num(l_) == 1 else l_ if const_num(r_) == 1 else None
+                                    if other is not None and len(sizes) == 1 and _dc5(prog, opt, other) in sizes:
+                                        okg = True
                         def _unwrap(e):
                             while isinstance(e, ast.Call) and call_name(e) in ("np.atleast_2d", "np.atleast_1d", "np.asarray", "np.array") and e.args:
                                 e = e.args[0]
@@ -343,11 +356,25 @@ def check(ctx):
         if not tests:
             ctx.fail(mesh, c2, "the repeat evaluation is not compared with options['tol_noise']", construct="<missing tol_noise comparison>")
         for tnode in tests:
-            ct = canon(tnode.test)
+            # the branch that raises the level is taken exactly when |y - y'| > tol_noise: ``if not (gap > tol): .. else:
+            # level = 1`` is the same test; ``if gap <= tol: .. else: level = 1`` is not (it differs at NaN, ``<`` also at
+            # equality), so the negation is kept explicit
+            ttest, positive = tnode.test, True
+            while isinstance(ttest, ast.UnaryOp) and isinstance(ttest.op, ast.Not):
+                ttest, positive = ttest.operand, not positive
+            ct = canon(ttest)
             if "OPT[tol_noise]" not in ct or not ct.startswith("(OPT[tol_noise] < np.abs("):
-                ct = deref_canon(prog, mesh, tnode.test)  # the gap / the comparison kept in a local
+                from .common import deref_expr as _dx5
+
+                dt = _dx5(prog, mesh, ttest)  # the gap / the comparison kept in a local
+                while isinstance(dt, ast.UnaryOp) and isinstance(dt.op, ast.Not):
+                    dt, positive = dt.operand, not positive
+                ct = canon(dt)
             want = {f"(OPT[tol_noise] < np.abs(({y1} - {y2})))", f"(OPT[tol_noise] < np.abs(({y2} - {y1})))"}
-            sets = [s for s in tnode.body if isinstance(s, ast.Assign) and state_key(s.targets[0]) == ("OS", "uncertainty_handling_level") and const_num(s.value) == 1]
+            branch = tnode.body if positive else tnode.orelse
+            sets = [s for s in branch if isinstance(s, ast.Assign) and state_key(s.targets[0]) == ("OS", "uncertainty_handling_level") and const_num(s.value) == 1]
+            if not positive and not sets:
+                ct = "not " + ct
             ctx.check(ct in want and bool(sets), mesh, tnode, "|y - y'| > tol_noise raises the uncertainty level to 1", f"the noise test is '{ct}' (expected |{y1} - {y2}| > tol_noise setting the level to 1)", construct=f"noise test {ct}")
         g = guard_canon(prog, mesh, c2)
         ctx.check(any(x in ("(OS[uncertainty_handling_level] < 1)", "(OS[uncertainty_handling_level] <= 0)") for x in g), mesh, c2, "noise test only when noise is not declared", "the noise test is not restricted to undeclared-noise runs", construct="noise test guard")
